@@ -1725,6 +1725,73 @@ theorem c13_copy_targets_nodup (h h' : Heap ℝ) (i j : Nat) (hcp : h.copy i = s
       rw [C13.targets_eq]
       simp [C13.refs]
 
+/-- a `Fresh` gaussian (constructed, or updated through the interface) has an ordered support window -/
+theorem c13_fresh_gauss_ordered (g : Gauss ℝ) (h : Fresh (.gauss g)) : g.tStart ≤ g.tStop := by
+  rw [(C13.fresh_gauss_iff g).mp h, ← gaussNew_eq]
+  exact c13_gauss_window_ordered _ _ _
+
+/-- **closed form = integral of the profile values after any history**: whatever sequence of
+`set_params` / `move` was applied to a constructed object, if it is a gaussian now (with `σ ≠ 0`) its
+`get_integral` is the integral of its (windowed) values over every interval — no hypothesis about the
+stored window is left. -/
+theorem c13_gauss_integral_after_history {erf : ℝ → ℝ} (herf : C13.IsErf erf) (c : Cell ℝ)
+    (ops : List C13.COp) (g' : Gauss ℝ) (hc : Fresh c) (hr : C13.runOps c ops = some (.gauss g'))
+    (hσ : g'.sigma ≠ 0) (t1 t2 : ℝ) :
+    ∫ t in t1..t2, gaussCall g' t = gaussIntegral erf g' t1 t2 :=
+  c13_gauss_integral herf g' hσ (c13_fresh_gauss_ordered g' (c13_history_fresh c _ ops hc hr)) t1 t2
+
+/-- an updated object evaluates like the freshly constructed one (the link from "updated = constructed"
+as states to "indistinguishable" as profile values) -/
+theorem c13_update_values_eq_construct (c : Cell ℝ) (pd : PDict ℝ) (hc : Fresh c) (x : ℝ) :
+    (c.setParams expectedNames pd).1.evalE x = (construct c (merged c pd)).evalE x ∧
+    (c.setParams expectedNames pd).1.evalT x = (construct c (merged c pd)).evalT x := by
+  rw [c13_update_eq_construct c pd hc]; exact ⟨rfl, rfl⟩
+
+namespace C13
+/-- the loop body of `Heap.setParamsV` -/
+noncomputable def updV (pn : ParamNames) (pd : PDictV ℝ) (acc : Heap ℝ × Bool × Option SetErr) (j : Nat) :
+    Heap ℝ × Bool × Option SetErr :=
+  match acc.2.2 with
+  | some _ => acc
+  | none =>
+    match acc.1[j]? with
+    | none => acc
+    | some c => let r := c.setParamsV pn pd; (acc.1.set j r.cell, acc.2.1 || r.updated, r.err)
+
+theorem setParamsV_eq_fold (pn : ParamNames) (h : Heap ℝ) (i : Nat) (pd : PDictV ℝ) :
+    h.setParamsV pn i pd = (targets h i).foldl (updV pn pd) (h, false, none) := by
+  unfold Heap.setParamsV
+  congr 1
+  funext acc j
+  unfold updV
+  cases acc.2.2 with
+  | some e => rfl
+  | none => cases acc.1[j]? <;> rfl
+
+theorem foldV_heap_num (pn : ParamNames) (pd : PDictV ℝ) (hn : AllNum pd) (l : List Nat) (hp : Heap ℝ) (u : Bool) :
+    l.foldl (updV pn pd) (hp, u, none) =
+      ((l.foldl (upd pn pd.nums) (hp, u)).1, (l.foldl (upd pn pd.nums) (hp, u)).2, none) := by
+  induction l generalizing hp u with
+  | nil => rfl
+  | cons j l ih =>
+    rw [List.foldl_cons, List.foldl_cons]
+    have hstep : updV pn pd (hp, u, none) j = ((upd pn pd.nums (hp, u) j).1, (upd pn pd.nums (hp, u) j).2, none) := by
+      unfold updV upd
+      simp only
+      cases hp[j]? with
+      | none => rfl
+      | some c => simp only [c13_set_params_v_num pn c pd hn]
+    rw [hstep, ih]
+end C13
+
+/-- **no error for numeric values, flux model level**: for a dictionary of numbers the general
+`FactorizedFluxModel.set_params` raises nothing and is the `Heap.setParams` of the frame / delegation /
+copy theorems. -/
+theorem c13_heap_set_params_v_num (pn : ParamNames) (h : Heap ℝ) (i : Nat) (pd : PDictV ℝ) (hn : C13.AllNum pd) :
+    h.setParamsV pn i pd = ((h.setParams pn i pd.nums).1, (h.setParams pn i pd.nums).2, none) := by
+  rw [C13.setParamsV_eq_fold, C13.setParams_eq_fold]
+  exact C13.foldV_heap_num pn pd hn _ h false
+
 /-! ## non-vacuity of the hypotheses used above -/
 
 example : ∃ E0 γ E1 E2 : ℝ, 0 < E0 ∧ 0 < E1 ∧ 0 < E2 ∧ γ ≠ 1 :=
